@@ -150,7 +150,9 @@ def do_check(pid, tier, seed, args, t0):
     EXPECTED[0] = expected_names
     del UNDECIDED_EXTRA[:]
     ts = time.time()
-    verify.solve(reports, timeout_ms=timeout_ms)
+    hints_path = os.path.join(HERE, "contracts", f"{pid}.hints.json")
+    hints = json.load(open(hints_path)) if os.path.exists(hints_path) and not os.environ.get("OSU_NO_HINTS") else None
+    verify.solve(reports, timeout_ms=timeout_ms, hints=hints)
     solver_wall = time.time() - ts
 
     # small-size refuter: obligations that are open (undecided, or sat with a model that does not
@@ -240,6 +242,10 @@ def do_check(pid, tier, seed, args, t0):
     if args.update_expected:
         with open(exp_path, "w") as f:
             json.dump(sorted(set(obligation_names)), f, indent=0)
+        hs = {ob.name: verify.winning_strategy(ob.reason) for rep in reports for ob in rep.obligations
+              if ob.status == "discharged" and verify.winning_strategy(ob.reason) not in (None, "z3[nl-abstraction]", "z3")}
+        with open(hints_path, "w") as f:
+            json.dump(dict(sorted(hs.items())), f, indent=0)
     elif os.path.exists(exp_path) and not args.only:
         with open(exp_path) as f:
             exp = set(json.load(f))
